@@ -9,6 +9,9 @@
      r.obs.named      per node: the key equals the dask_key_name given (TRUE where none was given)
      r.obs.nouts      per node: len() of the Delayed and the number of elements iteration gave
                       equal the nout given (TRUE where the node is not an nout call)
+     r.ref            value of the last node in the EAGER Python program ([t |-> "err"] if it
+                      raised): the reference guard - a disagreement with Vals is reported as
+                      clause "Guard", which the harness treats as a machinery error
 
    TLC evaluates the program itself (Vals, Idents) and decides the clauses.     *)
 EXTENDS DelayedProg, TraceIO
@@ -34,6 +37,7 @@ Bad(r) ==
       dl == { i \in DOMAIN p : I[i].d }
       fresh(i) == I[i].key.t = "uniq"
   IN IF ~(WellFormed(p) /\ Buildable(p) /\ I[n].d) THEN {"NotAProgram"}
+     ELSE IF Conv(r.ref) # I[n].val THEN {"Guard"}
      ELSE IF IsErr(I[n].val) THEN Clause("ErrorExpected", r.obs.raised # "")
      ELSE IF r.obs.raised # "" THEN {"UnexpectedRaise"}
      ELSE Clause("Value", Conv(r.obs.val) = I[n].val)
